@@ -395,8 +395,9 @@ def into_data(val: Convertible, ty: t.Optional[IntoConverter] = None, *,
     Convert `val` of type `ty` into a data interchange format.
     """
     if ty is None:
-        if isinstance(val, _ScalarType) and custom is None:
+        if type(val) in _ScalarType and custom is None:
             # we can bypass the converter for scalar types
+            # (not for their subclasses: an enum member or a user subclass is written by its own converter)
             return val
         ty = type(val)
 
